@@ -315,7 +315,12 @@ impl Prop for C15Prop {
                 (Ev::I64, grammar::render(&gen::gen_expr(&p, c, p.max_depth)), ph)
             }
             "f64-number" => {
-                let p = shared_profile();
+                let mut p = shared_profile();
+                if c.below(4) != 0 {
+                    // three cases in four use the short literals only (long argument lists must fit into 256 characters);
+                    // the long-fraction literals appear in the remaining quarter
+                    p.lits.truncate(20);
+                }
                 let ph = match c.below(6) {
                     0 => Val::F(3.0),
                     1 => Val::F(0.5),
